@@ -40,7 +40,7 @@ CoefMatch(c, mine, name) == Chk(name, AsSeq(c.coef) = mine) /\ Chk(name \o ".str
 TStartFresh == /\ IsEvent("StartFresh") /\ StartFresh(ModeOf(Ev), Ev.nit)
                /\ Chk("kl", kl' = KLof(Ev.kl)) /\ Chk("facs", facs' = AsSeq(Ev.facs)) /\ Chk("start", Ev.start = 0)
                /\ (Has("disk") => DiskMatchP(Ev.disk))
-TStartRestart == /\ IsEvent("StartRestart") /\ StartRestart(ModeOf(Ev), Ev.nit, AsSeq(Ev.listing))
+TStartRestart == /\ IsEvent("StartRestart") /\ StartRestart(ModeOf(Ev), Ev.nit, AsSeq(Ev.listing), Ev.ri)
                  /\ Chk("kl", kl' = KLof(Ev.kl)) /\ Chk("facs", facs' = AsSeq(Ev.facs)) /\ Chk("start", start' = Ev.start)
                  /\ CoefMatch(Ev.coef, coef', "coef")
                  /\ (Has("disk") => DiskMatchP(Ev.disk))
